@@ -24,6 +24,8 @@ def _ipool(tag, dom):
     lo, hi = int(info.min), int(info.max)
     small = tag in ("i1", "u1", "i2", "u2")
     unsigned = tag[0] == "u"
+    if dom == "act":
+        return list(range(-12, 13))
     if dom in ("any", "any0", "nz"):
         if small:
             p = list(range(max(lo, -128), min(hi, 255) + 1)) + [lo, hi]
@@ -70,6 +72,10 @@ def _fpool(tag, dom):
     g = [k / 16.0 for k in range(-160, 161)]
     if dom in ("any", "any0"):
         return g
+    if dom == "act":
+        # activations: the grid plus (with weight) the break points of the piecewise definitions and of the tested parameters
+        brk = [0.0, 0.5, -0.5, 1.0, -1.0, 3.0, -3.0, 6.0, 2.5, -2.5, 0.125, -0.125, 2.0, -2.0, 4.0, -6.0, 5.0, 8.0, 0.0625, -0.0625]
+        return g + brk * 3
     if dom == "nz":
         return [x for x in g if x != 0]
     if dom == "pos" or dom == "pw_base":
